@@ -22,7 +22,8 @@ import (
 const modPath = "x.io/test"
 
 var docForms = []string{"none", "line", "two-lines", "block", "detached", "with-tags"}
-var kinds = []string{"type-ungrouped", "type-grouped", "field", "field-multi", "const-grouped", "const-ungrouped", "var-ungrouped"}
+var kinds = []string{"type-ungrouped", "type-grouped", "field", "field-multi", "const-grouped", "const-ungrouped", "var-ungrouped",
+	"field-multiline-type", "type-grouped-multiline", "var-grouped-multiline-value", "type-ungrouped-multiline"}
 
 type Layout struct {
 	Kind  int   `json:"kind"`
@@ -80,10 +81,13 @@ func (l Layout) render(pkg string) (string, []expect) {
 	b.WriteString("package " + pkg + "\n\n")
 	indent := ""
 	switch kind {
-	case "type-grouped":
+	case "type-grouped", "type-grouped-multiline":
 		b.WriteString("type (\n")
 		indent = "\t"
-	case "field", "field-multi":
+	case "var-grouped-multiline-value":
+		b.WriteString("var (\n")
+		indent = "\t"
+	case "field", "field-multi", "field-multiline-type":
 		b.WriteString("type S struct {\n")
 		indent = "\t"
 	case "const-grouped":
@@ -110,6 +114,14 @@ func (l Layout) render(pkg string) (string, []expect) {
 		case "field-multi":
 			b.WriteString("\t" + name + ", M" + name[1:] + " int" + trail + "\n")
 			exp = append(exp, expect{"M" + name[1:], doc, tags, comment})
+		case "field-multiline-type":
+			b.WriteString("\t" + name + " struct {\n\t\tX int\n\t}" + trail + "\n")
+		case "type-grouped-multiline":
+			b.WriteString("\t" + name + " struct {\n\t\tX int\n\t}" + trail + "\n")
+		case "type-ungrouped-multiline":
+			b.WriteString("type " + name + " struct {\n\tX int\n}" + trail + "\n")
+		case "var-grouped-multiline-value":
+			b.WriteString("\t" + name + " = []int{\n\t\t1,\n\t}" + trail + "\n")
 		case "const-grouped":
 			b.WriteString("\t" + name + " = " + fmt.Sprint(i) + trail + "\n")
 		case "const-ungrouped":
@@ -120,9 +132,9 @@ func (l Layout) render(pkg string) (string, []expect) {
 		exp = append(exp, expect{name, doc, tags, comment})
 	}
 	switch kind {
-	case "type-grouped", "const-grouped":
+	case "type-grouped", "const-grouped", "type-grouped-multiline", "var-grouped-multiline-value":
 		b.WriteString(")\n")
-	case "field", "field-multi":
+	case "field", "field-multi", "field-multiline-type":
 		b.WriteString("}\n")
 	}
 	return b.String(), exp
@@ -431,7 +443,7 @@ func replay(c *core.Ctx, raw json.RawMessage) {
 func init() {
 	core.Register(&core.Prop{
 		ID: "C12", Level: "model_checking", Run: run, Replay: replay,
-		Rule: "layouts: every assignment of (doc form in {none, line, two lines, block, detached, with tag lines} x trailing comment yes/no) to 3 (thorough: 4 for two kinds) consecutive declarations, for 7 declaration kinds (ungrouped/grouped types, struct fields, multi-name fields, grouped/ungrouped consts, vars); one source file per layout loaded by the real loader; Doc/tags/Comment of every declared object vs the harness' own knowledge of what it wrote. Tag extraction: every single line <=5 (6) over an 8-symbol alphabet (also with custom markers), every pair of lines <=3. Non-trivial = layouts with at least one doc or trailing comment / inputs with at least one tag; states = distinct layout classes / (tags, other lines) counts",
+		Rule: "layouts: every assignment of (doc form in {none, line, two lines, block, detached, with tag lines} x trailing comment yes/no) to 3 (thorough: 4 for two kinds) consecutive declarations, for 11 declaration kinds (ungrouped/grouped types, struct fields, multi-name fields, grouped/ungrouped consts, vars, and multi-line declarations whose trailing comment sits on the closing line: fields of struct type, grouped/ungrouped struct types, grouped vars with multi-line values); one source file per layout loaded by the real loader; Doc/tags/Comment of every declared object vs the harness' own knowledge of what it wrote. Tag extraction: every single line <=5 (6) over an 8-symbol alphabet (also with custom markers), every pair of lines <=3. Non-trivial = layouts with at least one doc or trailing comment / inputs with at least one tag; states = distinct layout classes / (tags, other lines) counts",
 		Assumptions: []string{
 			"doc lines starting with 'go:' or with leading/trailing blanks are outside the alphabet",
 			"other (non-tag) lines are compared modulo surrounding spaces",
